@@ -540,6 +540,48 @@ fn roundtrip_from<A: GraphLike>(o: &Orig, from: &str, scramble: Option<u64>, to_
     }
 }
 
+/// The file variants of the same encoder/decoder: `write_graph` then `read_graph` (the
+/// reader deserialises from an io::Read, which - unlike from_str - cannot lend out borrowed
+/// strings). Used on a fraction of the cases; files live under harness/target/tmp.
+fn roundtrip_file(o: &Orig, scramble: Option<u64>) {
+    let c = ctx();
+    let site = "qgraph-file";
+    let dir = format!("/verif/harness/target/tmp/c13-{}", std::process::id());
+    let _ = std::fs::create_dir_all(&dir);
+    let file = format!("{dir}/{}-{}-{:?}.qgraph", o.family, o.index, std::thread::current().id());
+    let path = std::path::Path::new(&file);
+    let g: VecG = o.n.build(scramble);
+    match guarded(|| quizx::json::write_graph(&g, path)) {
+        Err(e) => {
+            report_caught(o, site, "write", "vec-file", None, e);
+            let _ = std::fs::remove_file(path);
+            return;
+        }
+        Ok(Err(e)) => {
+            c.violation(&format!("{site}|write-err"), o.family, o.index, json!({"what": "write_graph returned Err on a well-formed diagram", "original": o.n.to_json(), "error": format!("{e}")}));
+            let _ = std::fs::remove_file(path);
+            return;
+        }
+        Ok(Ok(())) => {}
+    }
+    let text = std::fs::read_to_string(path).unwrap_or_default();
+    let has_h = o.n.to_json().to_string().contains("\"H\"");
+    match guarded(|| quizx::json::read_graph::<HashG>(path)) {
+        Err(e) => report_caught(o, site, "read", "vec-file->hash", Some(&text), e),
+        Ok(Err(e)) => c.violation(
+            &format!("{site}|read-err|{}", if has_h { "diagram-has-hadamard-edge" } else { "no-hadamard-edge" }),
+            o.family,
+            o.index,
+            json!({"what": "read_graph returned Err on a file written by write_graph", "original": o.n.to_json(), "json": trunc(&text), "error": format!("{e}")}),
+        ),
+        Ok(Ok(g2)) => {
+            c.count("path:vec-file->hash", 1);
+            judge(o, site, "vec-file->hash", &text, &g2);
+        }
+    }
+    let _ = std::fs::remove_file(path);
+}
+
 fn roundtrip_serde(o: &Orig, scramble: Option<u64>) {
     let c = ctx();
     let site = "serde(hash_graph)";
@@ -607,6 +649,9 @@ pub fn check_neutral(family: &'static str, index: u64, r: &mut Rng, n: &Neutral)
     roundtrip_from::<VecG>(&o, "vec", scr, true, true);
     roundtrip_from::<HashG>(&o, "hash", scr, true, true);
     roundtrip_serde(&o, scr);
+    if index % 8 == 0 {
+        roundtrip_file(&o, scr);
+    }
     // evidence
     let cls = classify_scalar(&n.scalar);
     c.count(
